@@ -237,7 +237,16 @@ def execute(plan: dict, scratch: str, replay: Optional[dict] = None) -> dict:
                 fb = S3RangeFile(s3.s3, s3.bucket, s3._get_s3_key("data/obj"), s3.get_size("data/obj"))
             else:
                 fa = loc.open_seekable("data/obj")
-                fb = s3.open_seekable("data/obj")
+                try:
+                    fb = s3.open_seekable("data/obj")
+                except (core.SimDead, core.SimKilled):
+                    raise
+                except Exception as e:
+                    # opening an existing object for seekable reading works on the local backend: a raise here is a
+                    # difference between the backends, not a harness problem
+                    bad("B.seek_differs", f"size {size} buffered: local open_seekable() returns a file, s3 raises "
+                                          f"{type(e).__name__}: {str(e)[:100]}", "open")
+                    return
             sim.probe("seek_program")
             for i, step in enumerate(plan["prog"]):
                 ra, rb = _seek_step(fa, step), _seek_step(fb, step)
